@@ -206,6 +206,11 @@ def run(ctx):
     if thorough:
         record_and_judge(ctx, up, devs, 200, corrupt=7)
         replay_negative_control(ctx, up, vecs)
+    import execfam
+    if ctx.prop == "C04":
+        execfam.borrow_exec(ctx, ["args", "inputs", "dirvars"], {"calls"}, "exec-args")
+    else:
+        execfam.borrow_exec(ctx, ["abstract", "absops", "forms", "dups", "fault0", "fault1"], {"data", "errors"}, "exec-shapes")
     ctx.exhaustive = True
     if ctx.prop == "C04":
         ctx.rule = ("TLC enumerates (spec/MCCoerce.tla, families %s) every input type expression up to wrapper depth 3 over "
@@ -220,7 +225,7 @@ def run(ctx):
         ctx.assumptions += [
             "kinds the statement obliges ggql to accept: int64/float64 (parsed literals, JSON-decoded numbers), string, bool and the declared type's own Go kind; "
             "for other Go kinds in the variables map rejection with an error is accepted as well as correct coercion (outcome 'may')",
-            "an explicit null for a variable or input field that has a default is read as 'not supplied' (same convention as Sem!VarVals)",
+            "a null written for a variable or an input field is a value: defaults are for what is left out (Sem!VarVals, Sem!FillIn agree)",
             "variables are used at positions of their declared type (document validity)",
             "the error entry is judged by existence and first path segment (field key) or request-level error; deeper path segments are not part of the statement",
         ]
